@@ -80,20 +80,44 @@ def relex(text):
     return [str(t) for t in preprocessor.Lexer(text).tokenize()]
 
 
+# a second, structured family: names of function-like macros that travel through aliases, arguments and
+# identity-like macros before they meet their "(" (rescanning together with the rest of the source text)
+RESCAN_F = ["x + 1", "x", "(x) * A"]
+RESCAN_A = ["F", "1 + F", "F F", "ID"]
+RESCAN_ID = ["m", "m m", "(m)", "m + 0"]
+RESCAN_H = ["a b", "b a", "a"]
+RESCAN_INV = ["ID(A)(2)", "ID(F)(2)", "ID(7 * A)(2)", "A(2)", "A (A(2))", "H(A, 1)(2)", "H(1, A)(2)", "ID(ID(A))(2)", "ID(A(3))",
+              "ID(A)(ID(2))", "ID(A)", "ID(A)(2) ID(A)(3)", "ID(ID)(A)(2)", "H(ID, A)(2)", "ID(A)(2)(3)", "H(A, A)(2)"]
+
+
+def rescan_cases():
+    for f, a, i, h in itertools.product(RESCAN_F, RESCAN_A, RESCAN_ID, RESCAN_H):
+        defs = [f"#define F(x) {f}", f"#define A {a}", f"#define ID(m) {i}", f"#define H(a, b) {h}"]
+        for inv in RESCAN_INV:
+            yield {"defs": defs, "inv": inv}
+
+
 class Expansion:
     proved = False
     role = "bounded check of macro expansion against gcc -E (never counted as proved)"
 
     def bound(self, tier):
         n = 150 if tier == "quick" else 5000
+        m = 250 if tier == "quick" else len(RESCAN_F) * len(RESCAN_A) * len(RESCAN_ID) * len(RESCAN_H) * len(RESCAN_INV)
         return (f"{n} seeded random (macro table, invocation) pairs: object- and function-like macros of <= 3 parameters, # and ##, "
-                "variadic, nested / parenthesised / empty arguments, direct, mutual and argument-borne recursion; oracle gcc -E -P")
+                "variadic, nested / parenthesised / empty arguments, direct, mutual and argument-borne recursion; "
+                f"{m} of the {len(RESCAN_F) * len(RESCAN_A) * len(RESCAN_ID) * len(RESCAN_H) * len(RESCAN_INV)} structured rescanning cases "
+                "(function-like names reaching their parenthesis through aliases, arguments and identity macros); oracle gcc -E -P")
 
     def inputs(self, tier, seed):
         rng = random.Random(seed)
         n = 150 if tier == "quick" else 5000
         for defs in tables(rng, n):
             yield {"defs": defs, "inv": invocations(rng)}
+        allr = list(rescan_cases())
+        if tier == "quick":
+            allr = random.Random(seed + 7).sample(allr, 250)
+        yield from allr
 
     def nontrivial(self, inp):
         return getattr(self, "_valid", False)
